@@ -83,10 +83,11 @@ def make_field(df, m, emb, arr, names, units, vdims, dtype=None):
     nv = len(arr[0])
     dtype = dtype or _R_DTYPE[0]
     a = fld.unflatten(arr, m["n"], dtype=dtype or float)
+    salt = sum(int(v) for v in m["n"]) + nv + int(m["c"][0]) // 4
     if dtype is None:
-        return df.Field(mesh, nvdim=nv, value=a, vdims=vdims)
+        return fld.lived(df.Field(mesh, nvdim=nv, value=a, vdims=vdims), salt)
     # the dtype is also given explicitly (Field.dtype is then set): results must not be cast back to it (seed C06-3)
-    return df.Field(mesh, nvdim=nv, value=a, vdims=vdims, dtype=dtype)
+    return fld.lived(df.Field(mesh, nvdim=nv, value=a, vdims=vdims, dtype=dtype), salt)
 
 
 # ------------------------------------------------------------------ executing one operation
